@@ -6,7 +6,7 @@ def LOCKFLAG_MUTABLE : Nat := 1
 def LOCKFLAG_UNMODIFIED_BASE : Nat := 2
 def LOCKFLAG_FORCE_WRITE : Nat := 4
 def EVENTFLAG_FORCE_WRITE : Nat := 1
-def fwLockPassSites : Nat := 4
+def fwLockPassSites : Nat := 1
 def fwLockPassSitesInFungibleVault : Nat := 1
 def fwEventPassSites : Nat := 2
 def fwEventPassSitesInSystem : Nat := 2
@@ -16,9 +16,9 @@ def revertCalls : Nat := 1
 def revertCallsInSystemCallback : Nat := 1
 def forceWriteCalls : Nat := 1
 def forceWriteCallsInSubstateIo : Nat := 1
-def lockFlagGuards : Nat := 0
-def fieldGuardPresent : Nat := 0
-def kvGuardsPresent : Nat := 0
+def lockFlagGuards : Nat := 3
+def fieldGuardPresent : Nat := 1
+def kvGuardsPresent : Nat := 2
 def eventGuardPresent : Nat := 1
 def unmodifiedBaseRefusals : Nat := 3
 def closeForceWritePresent : Nat := 1
